@@ -154,6 +154,9 @@ def h_transfer(s0: bool, s1: bool, s2: bool, p0: bool, p1: bool, p2: bool, pd0: 
         expanded = {t.oid for _, t in uniq.values()} | ({FO[i] for i in range(NF)} if MODE == "closed" else
                                                          {FO[i] for l in LISTING for i in l})
         res, crashed, exc = None, False, None
+        reported_missing = []
+        if cube("vstatus", False):
+            kw = dict(kw, validate_status=lambda st_: reported_missing.extend(h.value for h in st_.missing))
         try:
             res = transfer(src, dst, req, verify=VERIFY, dest_index=dest_index, cache_odb=src, **kw)
         except Crash:
@@ -221,6 +224,9 @@ def h_transfer(s0: bool, s1: bool, s2: bool, p0: bool, p1: bool, p2: bool, pd0: 
                 for o in expanded:
                     if o not in have and o not in fl and o not in missing_both:
                         violation("absent-object-not-reported", o)
+                    if cube("vstatus", False) and o in missing_both and o not in reported_missing and o not in fl:
+                        # objects missing on both sides are reported through the status hook (that is how push/fetch warn about them)
+                        violation("object-missing-on-both-sides-not-reported", o)
                 sent = {"".join(tp.replace("\\", "/").split("/")[-2:]) for tp, _ in faults.events}
                 for o in dst_before:
                     if o in tr or o in fl:
